@@ -234,6 +234,16 @@ pub fn features() -> Vec<(&'static str, Vec<Item>)> {
                 Item::Defm { name: Some("ig".into()), parents: vec![CRef::with("MG", vec![int(1)])] },
             ],
         ),
+        (
+            // iteration over ranges; a defm with two (different) multiclass parents
+            "foreach-range-defm-multi",
+            vec![
+                Item::Foreach { var: "ri".into(), list: E::Raw("0...2".into()), body: vec![Item::Def { doc: vec![], blank: false, name: None, parents: vec![a_of(vec![id("ri")])], body: None }], braces: false },
+                Item::Foreach { var: "rj".into(), list: E::Raw("{0-2, 5}".into()), body: vec![Item::Def { doc: vec![], blank: false, name: None, parents: vec![a_of(vec![bang("!add", vec![id("rj"), int(1)]), s("r")])], body: None }], braces: true },
+                Item::Multiclass { doc: vec![], name: "MC2".into(), targs: vec![ti("q2")], parents: vec![], body: vec![def("_cc", vec![a_of(vec![id("q2")])], None)] },
+                Item::Defm { name: Some("dm2".into()), parents: vec![CRef::with("MA", vec![int(1)]), CRef::with("MC2", vec![int(2)])] },
+            ],
+        ),
         ("foreach-list", vec![Item::Foreach { var: "i".into(), list: E::List(vec![int(1)]), body: vec![def("fe", vec![a_of(vec![id("i")])], Some(vec![f(Ty::Int, "twice", bang("!add", vec![id("i"), id("i")]))]))], braces: false }]),
         ("foreach-var-list", vec![Item::Foreach { var: "i".into(), list: id("gl"), body: vec![Item::Def { doc: vec![], blank: false, name: None, parents: vec![a_of(vec![id("i"), s("r")])], body: None }], braces: true }]),
         (
